@@ -759,6 +759,14 @@ class Visitor(ast.NodeVisitor):
                  "You must specify your own error if the condition of your contract gives a coroutine.").format(result))
 
         assert node in self.recomputed_values
+
+        if isinstance(result, FirstExceptionInAll):
+            # The first offending case is recorded for the representation of the quantifier, but the enclosing
+            # expression must see the value which Python computed for the quantifier, namely ``False``.
+            # (``FirstExceptionInAll`` only mimics the truth value, so that, e.g., ``all(...) + 1`` or
+            # ``int(all(...))`` would fail and ``all(...) == False`` would give a wrong value.)
+            return False
+
         return result
 
     def visit_IfExp(self, node: ast.IfExp) -> Any:
